@@ -310,6 +310,14 @@ func (e *engine) validatePubCase(s string, id []byte, gen string, want string) {
 	e.rep.Compare(op, model, canonPanic(impl), "validatePubKey."+strings.ReplaceAll(model, " ", ""), "config.validatePubKey:"+gen, mon)
 }
 
+// stdPublic is what ed25519.PrivateKey.Public copies out of a (possibly odd-sized) private key
+// slice of at least 32 bytes: 32 bytes, taken from offset 32, zero-padded.
+func stdPublic(b []byte) []byte {
+	out := make([]byte, ed25519.PublicKeySize)
+	copy(out, b[32:])
+	return out
+}
+
 func (e *engine) trimCase(s string) {
 	op := "config.trimSpace s=" + lib.Hex([]byte(s))
 	model := e.m.Query(op)
@@ -549,6 +557,7 @@ func (e *engine) runC11() {
 
 	e.runC11Extra(keys)
 	e.runC11History(keys)
+	e.runC11Trunc(keys)
 
 	// malformed protobuf wrappers
 	nm := 300 * e.a.Scale
@@ -804,8 +813,16 @@ func (e *engine) runC11() {
 			return fmt.Sprintf("ok priv=%s pub=%s std=%s", lib.Hex(privRaw(sk)), lib.Hex(pubRaw(pk)), lib.Hex(*std.(*ed25519.PrivateKey)))
 		})
 		mon := ""
-		if l == 64 && strings.HasPrefix(impl, "panic") {
+		switch {
+		case l == 64 && strings.HasPrefix(impl, "panic"):
 			mon = "KeyPairFromStdKey panics on a well-formed key"
+		case l >= 32 && impl != fmt.Sprintf("ok priv=%s pub=%s std=%s", lib.Hex(b), lib.Hex(stdPublic(b)), lib.Hex(b)):
+			// stated without the model: the pair wraps exactly the given key — private key = the
+			// slice, public key = the 32 bytes from offset 32 (what ed25519.PrivateKey.Public copies
+			// out), and PrivKeyToStdKey gives the same slice back
+			mon = "KeyPairFromStdKey: the pair is not (the given key, its 32 bytes from offset 32) / PrivKeyToStdKey does not give the key back"
+		case l < 32 && strings.HasPrefix(impl, "ok"):
+			mon = "KeyPairFromStdKey builds a key pair from fewer than 32 bytes"
 		}
 		e.rep.Compare(op, model, canonPanic(impl), "stdKey."+head(model), "config.stdKey", mon)
 	}
